@@ -15,8 +15,8 @@ def run(tier, seed):
     b = BOUNDS[tier]
     d = C.run_engine('c14', b)
     r = C.engine_to_result(PROP, d, 'engine')
-    rule = ('every signature with <=%(posonly)d positional-only, <=%(args)d positional, optional *args / bare *, <=%(kwonly)d keyword-only, optional **kw; every suffix of '
-            'positional defaults and every subset of keyword-only defaults; annotations on/off per kind; as def and as lambda; states = signatures, transitions = '
+    rule = ('every signature with <=%(posonly)d positional-only, <=%(args)d positional, optional *args / bare *, <=%(kwonly)d keyword-only, optional **kw; every subset of '
+            'positional defaults (a trailing run is a valid signature and is converted; any other subset must be rejected by the parser, and whatever it lets through is converted too) and every subset of keyword-only defaults; annotations on/off per kind; as def and as lambda; states = signatures, transitions = '
             'conversions (to python form, into python form, back); non-trivial = has at least one parameter; outcomes = signature shapes' % b)
     return C.finish(PROP, tier, seed, t0, r, rule,
                     ['reference = the generator\'s own description of each signature (names, annotations, defaults per parameter)',
